@@ -43,7 +43,8 @@ def lead_coefficient(
         array([-4, -1,  4])
 
     """
-    poly = numpoly.aspolynomial(poly)
+    # the monomial order refers to the indeterminates in index order
+    (poly,) = numpoly.align_indeterminants(poly)
     out = numpy.zeros(poly.shape, dtype=poly.dtype)
     if not out.size:
         return out
